@@ -232,7 +232,7 @@ Definition make_name (opid : option str) (method path : str) : result str :=
                      end;
             Ok (lit "_by_" ++ p')
         end;
-      Ok (method ++ join (lit "_") names ++ last_group)
+      Ok (replace_char "."%char (lit "_") (method ++ join (lit "_") names ++ last_group))
   end.
 
 Definition NLNL : str := [ascii_of_N 10%N; ascii_of_N 10%N].
